@@ -111,7 +111,7 @@ def run(ctx):
 
     # ---- R16.4
     exs = iba.switches_on_call(r"std::path::Path::exists")
-    unl = iba.calls(r"helpers::unlink")
+    unl = iba.calls(r"helpers::unlink(_output)?|nix::unistd::unlink|std::fs::remove_file")
     creates = sorted({bb for (bb, _, s, _) in str_consts(init) if sqlc.kind(s) == "create table"})
     locks_held = iba.calls(r"state::Lock::wait_lock|state::Lock::try_lock")
     destructive = unl + creates
